@@ -5,6 +5,7 @@ import Umya.Spec.Double
 import Umya.Model.Reader
 import Umya.Model.ReaderSheet
 import Umya.Model.ReaderStyleView
+import Umya.Model.ReaderBook
 /-
   C03 driver.  `c03 part <namehex> <isxml> <hex>` collects the parts of one package (lexed by
   `Umya.Spec.Xml`), `c03 decode` answers with the violations found by the independent decoder and
@@ -166,8 +167,20 @@ def quoteQualifiers : List Umya.Spec.SharedF.Piece → Text
 
 def canonName (t : Text) : Text := quoteQualifiers (Umya.Spec.SharedF.scan t)
 
+/-- the decoder's statement about WHERE a name lives (ECMA-376 18.2.5 `localSheetId`: "the sheet index in this workbook
+    where the defined name is scoped"): a name with `localSheetId` = i belongs to sheet i; a name without is global to the
+    workbook — the standard has no notion of a sheet "holding" a global name, so the decoder says `g` and the library's
+    choice of list for such a name (its re-homing convention) is compared with the reader MODEL only (`c03 model`) -/
 def nameStr (n : NameV) : String :=
-  s!"{hexOf n.name}:{match n.scope with | some i => toString i | none => "~"}:{hexOf (canonName n.text)}"
+  s!"{hexOf n.name}:{match n.scope with | some i => toString i | none => "~"}:{hexOf (canonName n.text)}:{match n.scope with | some i => toString i | none => "g"}"
+
+def homeStr : Umya.Reader.Home → String
+  | .book => "w"
+  | .sheet k => toString k
+
+/-- the reader model's name with the list it is found in after loading -/
+def nameStrB (p : Umya.Reader.NameB × Umya.Reader.Home) : String :=
+  s!"{hexOf p.1.name}:{match p.1.localSheetId with | some i => toString i | none => "~"}:{hexOf (canonName p.1.body.text)}:{homeStr p.2}"
 
 def linkStr (l : Link) : String :=
   s!"{str l.ref}/{if l.external then "e" else "l"}/{hexOf l.target}/{if l.external then orTilde l.location else "~"}/{orTilde l.tooltip}"
@@ -325,37 +338,28 @@ def cellFacts (made : List StyleR) (cs : List Node) : Option (List String) :=
 inductive MRes where
   | unmodelled (why : String)
   | panic (why : String)
-  | ok (sheets : List SheetM) (names : List NameV) (stats : String)
+  | ok (sheets : List SheetM) (names : List (NameB × Home)) (stats : String)
 
 def stateStr (s : Option Text) : String :=
   match s with
   | some v => if v = "hidden".toList then "hidden" else if v = "veryHidden".toList then "veryHidden" else "visible"
   | none => "visible"
 
-def mviewStr (sheets : List SheetM) (names : List NameV) : String :=
+def mviewStr (sheets : List SheetM) (names : List (NameB × Home)) : String :=
   let sh := sheets.map fun s => s!"{hexOf s.sheet.name}:{stateStr s.sheet.state}"
-  let nm := sortStrings (names.map nameStr)
+  let nm := sortStrings (names.map nameStrB)
   let per := sheets.map fun s =>
     let cells := s.cells.filterMap (fun c => cellStrWith c.2 (s.links.map (·.ref)) c.1)
     let links := sortStrings (s.links.map linkStr)
     s!"cells={",".intercalate cells};merges={",".intercalate (s.merges.map str)};links={",".intercalate links}"
   s!"sheets={"|".intercalate sh};names={"|".intercalate nm} # {" # ".intercalate per}"
 
-/-- one sheet: `none` = the model panics -/
-def modelSheet (parts : List Part) (made : List StyleR) (sst : List (Option Text)) (wbRels : List RelR) (s : SheetR) : Option SheetM :=
-  match (sheetPart wbRels s).bind (fun p => (partRoot parts p).map fun r => (p, r)) with
-  | none => some ⟨s, [], [], []⟩          -- no relationship / no such part: the sheet stays empty
-  | some (path, root) =>
-    let rows := ((root.kid? "sheetData").map (·.kids "row")).getD []
-    let rels := (partRoot parts (relsPartOf path)).map readRels
-    let hs := ((root.kid? "hyperlinks").map (·.kids "hyperlink")).getD []
-    let ms := ((root.kid? "mergeCells").map (·.kids "mergeCell")).getD []
-    match readSheetData sst rows, (match rels with | some none => none | some (some r) => readHyperlinks (some r) hs | none => readHyperlinks none hs),
-          readMerges ms, cellFacts made (rows.flatMap (·.kids "c")) with
-    | some os, some ls, some mg, some fs =>
-      some ⟨s, (sortedCellsF (os.zip fs)).map (fun p => (outToCellV p.1, p.2)), mg,
-        ls.map fun l => { ref := l.ref, external := !l.location, target := l.url, tooltip := if l.tooltip.isEmpty then none else some l.tooltip }⟩
-    | _, _, _, _ => none
+/-- a sheet of `readBook` as the view shows it: `get_cell_collection_sorted` (stable sort, the last of equals stays), the
+    resolved facts of every cell's style, `get_range()` of every merged range, the links -/
+def toSheetM (sb : SheetB) : SheetM :=
+  let fs := sb.styles.map fun st => fullFactsStr (styleFacts st)
+  ⟨sb.sheet, (sortedCellsF (sb.cells.zip fs)).map (fun p => (outToCellV p.1, p.2)), shownMerges sb.merges,
+    sb.links.map fun l => { ref := l.ref, external := !l.location, target := l.url, tooltip := if l.tooltip.isEmpty then none else some l.tooltip }⟩
 
 /-- statistics of the shared groups of a `<sheetData>` as the MODEL sees them (informational) -/
 def groupStats (os : List CellOut) : Nat × Nat :=
@@ -369,25 +373,27 @@ def runModel (parts : List Part) (raws : List (String × List Char)) : MRes :=
   if relevant.any (fun (_, raw) => outsideTree raw) then .unmodelled "tag-forms-or-comments"
   else if (raws.filter fun (n, _) => n = "xl/styles.xml").any (fun (_, raw) => outsideTreeStyles raw) then .unmodelled "styles-tag-forms"
   else
+    -- `arv.by_name` + the XML reader; a part `xl/sharedStrings.xml` whose root is not `<sst>` holds no items
+    let lookup : Text → Option Node := fun n =>
+      match partRoot parts n with
+      | some r => if n = "xl/sharedStrings.xml".toList ∧ localName r.name ≠ "sst".toList then none else some r
+      | none => none
     match partRoot parts "xl/workbook.xml".toList, (partRoot parts "xl/_rels/workbook.xml.rels".toList) with
-    | some wb, some wr =>
-      let sst := match partRoot parts "xl/sharedStrings.xml".toList with
-        | some r => if localName r.name = "sst".toList then readSst r else []
-        | none => []
-      match readRels wr, readSheetList (((wb.kid? "sheets").map (·.kids "sheet")).getD []),
-            readDefinedNames (((wb.kid? "definedNames").map (·.kids "definedName")).getD []) with
-      | some wrs, some sl, some dn =>
-        if dn.any (fun d => match d.localSheetId with | some i => decide (i ≥ sl.length) | none => false) then .panic "localSheetId"
-        else
-          -- reader/xlsx/styles.rs: the part `xl/styles.xml`, `set_attributes` + `make_style` (float texts compared as bits: `cf` = id)
-          match (match partRoot parts "xl/styles.xml".toList with | some r => readStyleSheet id r | none => some []) with
-          | none => .panic "styles"
-          | some made =>
-          match sl.mapM (modelSheet parts made sst wrs) with
-          | none => .panic "sheet"
-          | some sheets =>
-            .ok sheets (dn.map fun d => NameV.mk d.name d.localSheetId d.text) ""
-      | _, _, _ => .panic "workbook"
+    | some _, some _ =>
+      -- THE model of the theorem `C03_book` (Umya/Model/ReaderBook.lean `readBook`), with the code's shared-formula
+      -- translator and float texts compared as bits (`cf` = id)
+      match readBook codeTr id lookup with
+      | none => .panic "reader"
+      | some b =>
+        -- informational: how many `ref` texts of merged ranges / texts of defined names of this file satisfy the
+        -- (decidable forms of the) hypotheses of C03_merges / C03_defined_names
+        let ms := (parts.filterMap (·.xml)).flatMap fun r =>
+          if localName r.name = "worksheet".toList then (((r.kid? "mergeCells").map (·.kids "mergeCell")).getD []).filterMap (·.attr? "ref".toList) else []
+        let nm := match partRoot parts "xl/workbook.xml".toList with
+          | some (wb : Node) => (((wb.kid? "definedNames").map (fun (d : Node) => d.kids "definedName")).getD []).map (fun (d : Node) => d.ownText)
+          | none => []
+        .ok (b.sheets.map toSheetM) b.names
+          s!"merges-ok={(ms.filter mergeRefOkB).length}/{ms.length} names-ok={(nm.filter nameTextOkB).length}/{nm.length}"
     | _, _ => .unmodelled "no-workbook-part"
 
 end Model
